@@ -316,6 +316,39 @@ def run_spin(ctx, flavour="dbg", jobs=None):
         ctx.oracle_failures.append((Case(ENGINE, lines, origin), kind, desc + " [flavour %s]" % flavour))
 
 
+def run_selfquit(ctx, flavour="asan"):
+    """A pool one of whose io loops has ended on its own (`selfquit <i>`: a task on it calls quit(); the EventLoop object
+    is destroyed when its thread leaves threadFunc) is destroyed afterwards: `~EventLoopThreadPool` / `~EventLoopThread`
+    must not touch the dead loop (C05: "without touching a loop that has already been destroyed").  Oracle only (no
+    model): the process must not crash or trip the sanitizer, nothing may be logged at ERROR level (a `quit()` on the dead
+    object writes to a closed or re-used descriptor: "EventLoop::wakeup() writes -1 bytes"), and the pools started afterwards
+    answer as usual."""
+    exe = ctx.exe("pool_drv", flavour)
+    progs = [["start 3", "selfquit 1", "start 2", "next 4", "start 0"],
+             ["start 1", "selfquit 0", "start 1", "next 2"],
+             ["start 4", "selfquit 0", "selfquit 3", "next 3", "start 2", "selfquit 1"]]
+    env = dict(os.environ, ASAN_OPTIONS="detect_stack_use_after_return=1:detect_leaks=0:abort_on_error=0:exitcode=77")
+    for lines in progs:
+        case = Case(ENGINE, lines, "selfquit:" + flavour)
+        blocks, err = ctx.run_impl(exe, case, timeout=120, env=env)
+        obs = [l for b in blocks for l in ctx.observable(b)]
+        ctx.count("pool:selfquit")
+        ctx.record(case, blocks, nontrivial=True, sample={"ops": lines, "steps": len(lines), "last_observation": (obs or ["?"])[-1][:120]})
+        bad = None
+        if any(l.startswith("<<") for l in obs):
+            san = next((l.strip() for l in err.split("\n") if "ERROR: AddressSanitizer" in l or "SUMMARY:" in l), "")
+            bad = ("uaf-pool-dtor", "pool destroyed after io loop ended on its own: %s %s" % (obs[-1][:120], san[:200]))
+        elif " ERROR " in err or "writes -1 bytes" in err:
+            line = next((l for l in err.split("\n") if " ERROR " in l or "writes -1" in l), "")
+            bad = ("uaf-pool-dtor", "pool destroyed after an io loop ended on its own: the destructor still used the dead loop "
+                   "(logged: %s)" % line.strip()[:200])
+        elif sum(1 for l in obs if l.startswith("selfquit ")) != sum(1 for l in lines if l.startswith("selfquit ")):
+            bad = ("trace", "selfquit not answered: %s" % obs[-3:])
+        if bad and not ctx.oracle_failures:
+            ctx.oracle_failures.append((case, bad[0], bad[1] + " [flavour %s]" % flavour))
+            return
+
+
 def read_case_file(path):
     with open(path) as f:
         return [l.rstrip("\n") for l in f if l.strip() and not l.startswith("#") and not l.startswith("engine=")]
